@@ -36,6 +36,7 @@ func replaced(argv [][]byte, i int, tok string) [][]byte {
 
 var nonNumericInt = []struct{ class, tok string }{
 	{"non-numeric", "abc"}, {"non-numeric", ""}, {"non-numeric", "12x"}, {"fractional-for-integer", "1.5"},
+	{"non-numeric", "-"}, {"non-numeric", "+"}, {"non-numeric", "--1"},
 	{"overflowing", "99999999999999999999"}, {"overflowing", "-99999999999999999999"}, {"overflowing", "9223372036854775808"},
 }
 var nonNumericFloat = []struct{ class, tok string }{{"non-numeric", "abc"}, {"non-numeric", ""}, {"non-numeric", "1.5.2"}, {"non-numeric", "1,5"},
@@ -177,6 +178,11 @@ func Surplus(r *rng.R, v *Vector) resp.Value {
 
 // Unknown returns a request for a command that is not part of the surface.
 func Unknown(r *rng.R, token string) resp.Value {
+	if r.Chance(1, 6) {
+		// an unknown SUBcommand of a command the framework answers itself - among them words that mean something
+		// elsewhere (the name of another command): an error reply, no handler call, and nothing else happens
+		return resp.Cmd("CONFIG", rng.Pick(r, []string{"QUIT", "quit", "Quit", "AUTH", "SELECT", "FOO", "RESETSTAT", ""}))
+	}
 	name := rng.Pick(r, []string{"FOO", "GETX", "SE", "XSET", "FLUSHALL", "SUBSCRIBE", "", "\r\n+OK\r\n", "GET\x00", "get "}) + token
 	args := []string{name}
 	for i := 0; i < r.Intn(3); i++ {
